@@ -301,6 +301,7 @@ class FuncInfo(object):
 #       break/continue) -> BODY once per entry with a, b substituted; and
 #       `getattr(x, '<constant>')` -> `x.<constant>`  (table-driven dispatch
 #       and the if-chain it replaces read the same)
+#   C12 `a, b = X, Y` where Y does not read a (and so on)   ->  `a = X; b = Y`
 #   C6  `t = E` immediately followed by a statement in which t (bound once, read
 #       once in the function) is the first thing evaluated apart from plain
 #       name / attribute / constant loads                 ->  E substituted for t
@@ -633,7 +634,37 @@ def _expand_next_searches(fn):
         blk[i] = loop
 
 
+def _split_tuple_assignments(fn):
+  for parent in ast.walk(fn):
+    for blk in _canon_blocks(parent):
+      i = 0
+      while i < len(blk):
+        st = blk[i]
+        if isinstance(st, ast.Assign) and len(st.targets) == 1 and isinstance(
+            st.targets[0], ast.Tuple) and isinstance(st.value, ast.Tuple) and \
+            len(st.targets[0].elts) == len(st.value.elts) and all(
+                isinstance(t, ast.Name) for t in st.targets[0].elts) and not \
+            any(isinstance(v, ast.Starred) for v in st.value.elts):
+          names = [t.id for t in st.targets[0].elts]
+          ok = len(set(names)) == len(names)
+          for j, v in enumerate(st.value.elts):
+            reads = {x.id for x in ast.walk(v) if isinstance(x, ast.Name)}
+            if reads & set(names[:j]):
+              ok = False
+          if ok:
+            new = []
+            for t, v in zip(st.targets[0].elts, st.value.elts):
+              a = ast.Assign(targets=[t], value=v)
+              ast.copy_location(a, st)
+              new.append(a)
+            blk[i:i + 1] = new
+            i += len(new)
+            continue
+        i += 1
+
+
 def _canon_function(fn):
+  _split_tuple_assignments(fn)
   _expand_next_searches(fn)
   _expand_conditional_expressions(fn)
   _expand_quantifier_returns(fn)
